@@ -78,6 +78,43 @@ def failing():
     return F
 
 
+def duplicates_leg(ck, H):
+    """A target listed more than once (repeated literally, or spelled with and without its port): every *line* yields one block."""
+    a, b = multi.ip_of(0), multi.ip_of(1)
+    layouts = [[a, b, a], [a, a], [a, '%s:22' % a, b], [b, a, b, a], ['%s:2222' % a, a, '%s:2222' % a]]
+    scs, meta = [], []
+    for lines in layouts:
+        servers = {(a, 22): H['warn'], (b, 22): H['good'], (a, 2222): H['fail']}
+        for threads in (1, 4):
+            for js in (False, True):
+                scs.append({'argv': (['-j'] if js else ['-n']) + ['--skip-rate-test', '--threads', str(threads), '-T', '{tmp}/targets.txt'], 'servers': servers,
+                            'files': {'targets.txt': '\n'.join(lines) + '\n'}})
+                meta.append((lines, threads, js))
+    for (lines, threads, js), sc, r in zip(meta, scs, runner.run_many(scs)):
+        ck.evaluated()
+        if r.get('harness_error') or r.get('hang'):
+            raise common.Machinery('duplicate-target run failed: %r' % (r.get('harness_error') or 'hang'))
+        replay = {'lines': lines, 'threads': threads, 'json': js, 'argv': sc['argv'], 'exit': r['exit'], 'stdout': r['stdout'][-2500:]}
+        want_status = 3 if any(l.endswith(':2222') for l in lines) else 2
+        n = None
+        if js:
+            try:
+                doc = json.loads(r['stdout'])
+                n = len(doc) if isinstance(doc, list) else None
+            except ValueError:
+                n = None
+        else:
+            n = len(multi.split_text(r['stdout']))
+        if n != len(lines):
+            ck.violation('repeated-target-block-count view=%s' % ('json' if js else 'text'),
+                         'targets file %r, %d thread(s): %s result blocks for %d listed targets' % (lines, threads, 'unparsable output /' if n is None else n, len(lines)), replay)
+        elif r['exit'] != want_status:
+            ck.violation('repeated-target-exit-status', 'targets file %r: exit status %r, expected %r' % (lines, r['exit'], want_status), replay)
+        else:
+            ck.cov['traces_validated_against_impl'] += 1
+            ck.nontrivial(('duplicates', tuple(lines), threads, js))
+
+
 def run(tier):
     ck = common.Check('C08', tier)
     rnd = random.Random(ck.seed)
@@ -89,6 +126,11 @@ def run(tier):
     ck.log('model: Blocks/ExitIsMax/Framing/RunEnds hold when SystemExit is contained (%d states); they fail when it escapes, as expected' % res.distinct)
 
     H, F = healthy(), failing()
+    # healthy targets whose probes cannot be made: the first connection is served, every later one is refused / turned away.
+    # Their result is a report (all of it from the first connection), like any healthy target's.
+    c1 = peers.ServerCfg(H['warn']); c1['refuse_after'] = 1
+    c2 = peers.ServerCfg(H['fail']); c2['maxstartups_after'] = 1
+    H = dict(H, **{'warn-one-connection': c1, 'fail-probes-turned-away': c2})
     arch = {n: ('server', c) for n, c in H.items()}
     arch.update(F)
     # single-target references
@@ -103,7 +145,7 @@ def run(tier):
     sres = dict(zip(sidx, runner.run_many(sscs)))
     status_of = {n: sres[(n, False, 0)]['exit'] for n in names}
     for n in H:
-        common.require(status_of[n] == {'good': 0, 'warn': 2, 'fail': 3}[n], 'healthy archetype %s exits %r' % (n, status_of[n]))
+        common.require(status_of[n] == {'good': 0, 'warn': 2, 'fail': 3}[n.split('-')[0]], 'healthy archetype %s exits %r' % (n, status_of[n]))
     lists = []
     hn, fn = sorted(H), sorted(F)
     for f in fn:
@@ -199,6 +241,7 @@ def run(tier):
         tr = multi.build_trace(r, labels, k, js)
         traces.append(tr)
         tmeta.append((m, tag))
+    duplicates_leg(ck, H)
     verdicts = multi.validate(ck, traces)
     for j, ((m, tag), tr, (ok, info)) in enumerate(zip(tmeta, traces, verdicts)):
         if j in roots:
